@@ -443,6 +443,18 @@ pub fn regwalk(s: &mut Session, cmd: &Value) -> Value {
             break;
         }
         stops += 1;
+        // the step before this stop was issued while an outer frame was selected: the new stop must
+        // be looked at from its innermost frame again
+        if step > 0 {
+            let d = s.dbg.as_ref().unwrap();
+            if d.ecx().frame_num() != 0 {
+                findings.push(json!({"sig": "C05:optimized:frame-selection-survives-a-step", "detail": format!("step {step} pc {:#x}: after stepi the frame in focus is number {}", regs.rip.wrapping_sub(base), d.ecx().frame_num())}));
+            } else if let (Ok(fi), Some(cfa)) = (d.frame_info(), frames[0].cfa) {
+                if fi.cfa.as_u64() != cfa {
+                    findings.push(json!({"sig": "C05:optimized:frame-selection-survives-a-step", "detail": format!("step {step} pc {:#x}: frame info right after stepi reports the CFA {:#x}, the innermost frame's is {cfa:#x}", regs.rip.wrapping_sub(base), fi.cfa.as_u64())}));
+                }
+            }
+        }
         // C05 on optimized code: the debugger's backtrace against this file's unwinder, frame by
         // frame (instruction pointer = pc / return address, function = the subprogram DIE found here)
         {
@@ -569,14 +581,16 @@ pub fn regwalk(s: &mut Session, cmd: &Value) -> Value {
             }
         }
         let d = s.dbg.as_mut().unwrap();
-        let _ = d.set_frame_into_focus(0);
         if innermost == until || innermost.is_empty() {
+            let _ = d.set_frame_into_focus(0);
             ended = "reached until_fn";
             break;
         }
         if step == max_steps {
+            let _ = d.set_frame_into_focus(0);
             break;
         }
+        // (the outermost inspected frame stays selected across the step)
         if d.stepi().is_err() {
             ended = "stepi failed";
             break;
